@@ -11,6 +11,8 @@ use epserde::*;
 use mem_dbg::*;
 use std::ptr::{addr_of, addr_of_mut, read_unaligned, write_unaligned};
 
+use super::masked_word;
+
 use crate::{
     prelude::{BitLength, BitVec, Rank, RankHinted, RankUnchecked, RankZero},
     traits::{BitCount, NumBits},
@@ -352,7 +354,7 @@ macro_rules! impl_rank_small {
                     }
                     let mut count = Block32Counters::<$NUM_U32S, $COUNTER_WIDTH>::default();
                     count.absolute = (past_ones - upper_count) as u32;
-                    past_ones += bits.as_ref()[i].count_ones() as usize;
+                    past_ones += masked_word(bits.as_ref(), i, num_bits).count_ones() as usize;
 
                     for j in 1..Self::WORDS_PER_BLOCK {
                         #[allow(clippy::modulo_one)]
@@ -361,7 +363,7 @@ macro_rules! impl_rank_small {
                             count.set_rel(j / Self::WORDS_PER_SUBBLOCK, rel_count);
                         }
                         if i + j < num_words {
-                            past_ones += bits.as_ref()[i + j].count_ones() as usize;
+                            past_ones += masked_word(bits.as_ref(), i + j, num_bits).count_ones() as usize;
                         }
                     }
 
